@@ -314,6 +314,9 @@ func (m *simModule) storeOps(call *wasm.Call, h *hasher) {
 				val[j] = "abcdefghijklmnop"[(x>>(uint(j)*4))&15]
 			}
 			val = append(val, ';')
+			if (x>>44)%8 == 0 {
+				val = nil // appending nothing is legal and creates the key with an empty value
+			}
 			call.DoAppend(ord, key, val)
 		case "add":
 			switch spec.VType {
